@@ -25,13 +25,15 @@ type Context interface {
 
 type HandlerFunc func(Context) error
 
+type MiddlewareFunc func(HandlerFunc) HandlerFunc
+
 type Echo struct{}
 
-func (e *Echo) GET(path string, h HandlerFunc)    {}
-func (e *Echo) POST(path string, h HandlerFunc)   {}
-func (e *Echo) PUT(path string, h HandlerFunc)    {}
-func (e *Echo) DELETE(path string, h HandlerFunc) {}
-func (e *Echo) Group(path string, h HandlerFunc)  {}
+func (e *Echo) GET(path string, h HandlerFunc, m ...MiddlewareFunc)    {}
+func (e *Echo) POST(path string, h HandlerFunc, m ...MiddlewareFunc)   {}
+func (e *Echo) PUT(path string, h HandlerFunc, m ...MiddlewareFunc)    {}
+func (e *Echo) DELETE(path string, h HandlerFunc, m ...MiddlewareFunc) {}
+func (e *Echo) Group(path string, h HandlerFunc)                       {}
 `
 
 const c13Inner = `package inner
@@ -112,6 +114,14 @@ func c13Handler(tag string, k int) c13Route {
 		r.body = decl("", "\tquick := c.QueryParam(\"fast\")\n\tif quick != \"\" {\n\t\treturn c.JSON(200, Output{})\n\t}\n\tvar in Input\n\tif err := c.Bind(&in); err != nil {\n\t\treturn err\n\t}\n\tlater := c.QueryParam(\"later"+tag+"\")\n\t_ = later\n\treturn c.JSON(200, Output{})\n")
 		r.input, r.ret = "Input", "Output"
 		r.queries, r.qkinds = []string{"fast", "later" + tag}, []string{"string", "string"}
+	case 8: // JSON form field decoded into a pointer variable
+		r.handler, r.name = name, name
+		r.body = decl("", "\tp := new(Input)\n\terr := FormValueJSON(c, \"meta\", p)\n\t_ = err\n\treturn c.NoContent(200)\n")
+		r.jsonName, r.jsonType = "meta", "Input"
+	case 9: // JSON form field decoded into the field of a local struct
+		r.handler, r.name = name, name
+		r.body = decl("", "\tvar req struct{ Payload Input }\n\terr := FormValueJSON(c, \"meta\", &req.Payload)\n\t_ = err\n\treturn c.NoContent(200)\n")
+		r.jsonName, r.jsonType = "meta", "Input"
 	default: // method with a bool query parameter
 		r.handler, r.name = "ct."+name, name
 		r.body = decl("(ct *controller) ", "\tok := QueryParamBool(c, \"ok\")\n\t_ = ok\n\treturn c.NoContent(200)\n")
@@ -149,9 +159,14 @@ func HC13_parseEcho() {
 	verbs := []string{"GET", "POST", "PUT", "DELETE"}
 	for i := 0; i < n; i++ {
 		tag := fmt.Sprint(i)
-		r := c13Handler(tag, vfChoice("handler"+tag, 8))
-		r.verb = verbs[vfChoice("verb"+tag, 4)]
-		pk := vfChoice("path"+tag, 5)
+		// the routes after the first vary less (C13.narrow): the product of full variations of two routes does not fit
+		nh, nv, np, nm := 10, 4, 5, 3
+		if i > 0 && vfParam("C13.narrow", 0) == 1 {
+			nh, nv, np, nm = 3, 2, 2, 1
+		}
+		r := c13Handler(tag, vfChoice("handler"+tag, nh))
+		r.verb = verbs[vfChoice("verb"+tag, nv)]
+		pk := vfChoice("path"+tag, np)
 		r.pathExpr, r.url = c13Path(tag, pk)
 		if pk == 3 {
 			locals += "\tconst local" + tag + " = base + \"/local/" + tag + "\"\n"
@@ -160,14 +175,15 @@ func HC13_parseEcho() {
 			locals += "\tconst route" + tag + " = \"/shadowing/" + tag + "\"\n"
 		}
 		pkgConsts += "const route" + tag + " = \"/package-level/" + tag + "\"\n"
-		regs += "\te." + r.verb + "(" + r.pathExpr + ", " + r.handler + ")\n"
+		mw := []string{"", ", logged", ", logged, logged"}[vfChoice("middlewares"+tag, nm)]
+		regs += "\te." + r.verb + "(" + r.pathExpr + ", " + r.handler + mw + ")\n"
 		decls += r.body
 		routes = append(routes, r)
 	}
 	src := "package routes\n\nimport (\n\t\"example.com/mod/echo\"\n\t\"example.com/mod/inner\"\n)\n\n" +
 		"const base = \"/api\"\n\n" + pkgConsts + "\ntype Input struct {\n\tA int\n\tB string\n}\n\ntype Output struct {\n\tC bool\n}\n\ntype controller struct{}\n\n" +
 		"func QueryParamInt64(c echo.Context, name string) int64 { return 0 }\nfunc QueryParamInt[T ~int64](c echo.Context, name string) T { return 0 }\nfunc QueryParamBool(c echo.Context, name string) bool { return false }\n" +
-		"func FormValueJSON(c echo.Context, name string, dst interface{}) error { return nil }\n\nvar _ = inner.Prefix\n\n" +
+		"func FormValueJSON(c echo.Context, name string, dst interface{}) error { return nil }\n\nfunc logged(next echo.HandlerFunc) echo.HandlerFunc { return next }\n\nvar _ = inner.Prefix\n\n" +
 		decls + "\nfunc setup(e *echo.Echo, ct *controller) {\n" + locals + "\te.Group(\"/not-a-route\", nil)\n" + regs + "}\n"
 	pkg := vfTypeCheck("example.com/mod/routes", []string{"/m/routes/routes.go"}, []string{src}, []*packages.Package{echo, inner})
 
